@@ -93,6 +93,10 @@ def hyp_main(name, strategy, run, max_examples_default=50, stateful_steps=None):
 
     n = int(os.environ.get("VERIF_CASES", max_examples_default))
     sd = int(os.environ.get("VERIF_HSEED", "1"))
+    import time
+
+    budget = float(os.environ.get("VERIF_DEADLINE_S", "0") or 0)
+    t_end = time.time() + budget if budget > 0 else None
 
     @seed(sd)
     @settings(
@@ -107,6 +111,10 @@ def hyp_main(name, strategy, run, max_examples_default=50, stateful_steps=None):
     )
     @given(strategy)
     def prop(c):
+        if t_end is not None and time.time() > t_end and not STATS.failures:
+            # time budget used up: the remaining examples are skipped (inconclusive beyond this point, never a failure)
+            STATS.counters["examples_skipped_after_time_budget"] = STATS.counters.get("examples_skipped_after_time_budget", 0) + 1
+            return
         why = run(c)
         if why:
             fail_case(c, why)  # the last one written is the shrunk one
